@@ -1,4 +1,8 @@
 import JadeModel.Proofs.SystemUniqueRows
+import JadeModel.Proofs.SystemUniqueDefs
+import JadeModel.Proofs.SystemUniqueAStepA
+import JadeModel.Proofs.SystemUniqueAStepB
+import JadeModel.Proofs.SystemUniqueAStepC
 
 set_option linter.unusedSimpArgs false
 
@@ -7,66 +11,11 @@ set_option linter.unusedSimpArgs false
 
 namespace Jade.Sys
 
-/-- the events after which a second row for a job becomes possible: an exception inside a submitter
-    round (`fail`, the torn `persist`, the torn `_move_results`) -/
-def Op.risky : Op → Bool
-  | .collectCopy _ _ => true
-  | .persistCfg _ => true
-  | .persistJobs _ => true
-  | .fail _ => true
-  | _ => false
-
-theorem risky_of_faulty {op : Op} (h : op.faulty = false) : op.risky = false := by
-  cases op <;> first | rfl | cases h
-
-macro "frame_uq" : tactic => `(tactic|
-  try simp only [HasRow, hasRowF_move, hasRowF_snocProc, hasRowF_snocNode, mustCancel_iff, nodeCancel_guard_iff,
-    freshHid_some_iff, holderPend, holderBidx, holderSub, Orphan, procs_setSub, procs_setNode, procs_setProc,
-    setSub_fields, setNode_fields, setProc_fields, holds_iff] at *)
-
-/-- program-counter discipline of rounds that never see an exception -/
-structure PlainA (s : Sys) : Prop where
-  noFail : ∀ q a y, s.procs q = .sub a y → y.pc ≠ .failing
-  pendMarked : ∀ q a y, s.procs q = .sub a y → y.pend ≠ [] → y.pc = .marked
-  /-- outside the collection loop nothing is waiting to be canceled or to be folded into `newly` -/
-  quiet : ∀ q a y, s.procs q = .sub a y → y.pc ≠ .collecting → y.toCancel = [] ∧ y.pass = []
-  /-- before the first pass and after `update_job_status` nothing is newly completed -/
-  quietNewly : ∀ q a y, s.procs q = .sub a y →
-    (y.pc = .fresh ∨ y.pc = .loaded ∨ y.pc = .persisted ∨ y.pc = .unmarked ∨ y.pc = .summarized ∨ y.pc = .flagged) →
-    y.newly = []
-  /-- every batch is on disk or pending in the role holder's memory (no orphaned round) -/
-  batchJobs : ∀ b ∈ s.batches, ∀ j ∈ b.jobs, s.disk.st j ≠ .ns ∨ j ∈ holderPend s
-
-theorem plainA_init (sc : Scn) : PlainA (init sc) := by
-  refine ⟨?_, ?_, ?_, ?_, ?_⟩ <;> simp [init]
-
-set_option maxHeartbeats 16000000 in
 theorem plainA_step {s s' : Sys} {op : Op} (hb : BatchInv s) (hi : PlainA s) (h : step s op = some s')
     (hf : op.risky = false) : PlainA s' := by
-  obtain ⟨⟨r1, r2, r3, r4, r5⟩, l1, l2, l3, -, -, -, -⟩ := hb
-  obtain ⟨a1, a2, a3, a4, a5⟩ := hi
-  cases op <;> (first | (cases hf; done) | skip) <;> step_cases h <;>
-    (refine ⟨?_, ?_, ?_, ?_, ?_⟩ <;> frame_uq)
-  all_goals first
-    | proc_clause
-    | grind [SubP.load, persistStatus, find?_hid]
-
-end Jade.Sys
-
-namespace Jade.Sys
-
-theorem mem_newly_passEnd (newly : List JobId) (pass : List Row) (j : JobId) :
-    j ∈ newly ++ (pass.map (·.job)).filter (fun j => !newly.contains j) ↔ (j ∈ newly ∨ ∃ r ∈ pass, r.job = j) := by
-  simp only [List.mem_append, List.mem_filter, List.mem_map, List.contains_eq_mem, Bool.not_eq_true',
-    decide_eq_false_iff_not]
-  constructor
-  · rintro (h | ⟨⟨r, hr, hj⟩, -⟩)
-    · exact Or.inl h
-    · exact Or.inr ⟨r, hr, hj⟩
-  · rintro (h | ⟨r, hr, hj⟩)
-    · exact Or.inl h
-    · by_cases hn : j ∈ newly
-      · exact Or.inl hn
-      · exact Or.inr ⟨⟨r, hr, hj⟩, hn⟩
+  obtain ⟨c_noFail, c_pendMarked⟩ := plainA_step_a hb hi h hf
+  obtain ⟨c_quiet, c_quietNewly⟩ := plainA_step_b hb hi h hf
+  have c_batchJobs := plainA_step_c hb hi h hf
+  exact ⟨c_noFail, c_pendMarked, c_quiet, c_quietNewly, c_batchJobs⟩
 
 end Jade.Sys
